@@ -67,6 +67,10 @@ func (m *Model) Idx(name string) int {
 			return i
 		}
 	}
+	if t := world.Dyn(name); t != nil {
+		m.Menu = append(m.Menu, *t)
+		return len(m.Menu) - 1
+	}
 	panic("no template " + name)
 }
 
